@@ -71,8 +71,25 @@ fn body(rng: &mut Rng, vocab: &[String], depth: u32) -> String {
     s
 }
 
-/// One chunk of program text.
+/// Expandable tokens whose expansion reports an error (they matter right after a construct that has
+/// just reported a recoverable error of its own and still looks ahead).
+const FAILING: &[&str] = &["\\the\\relax ", "\\the\\def ", "\\input nosuch ", "\\ifnum", "\\ifcase", "\\expandafter", "\\noexpand",
+    "\\fi ", "\\else ", "\\or ", "\\the", "\\ifodd x", "\\ifnum 1 ! 2 ", "\\undefinedcs ", "\\input ", "\\endinput\\the\\relax "];
+
+/// One chunk of program text.  One in four chunks loses its trailing space so that the next chunk
+/// follows the construct directly (look-ahead of number/dimension/keyword scanners).
 fn chunk(rng: &mut Rng, vocab: &[String], depth: u32) -> String {
+    let mut c = chunk_spaced(rng, vocab, depth);
+    if rng.chance(1, 4) && c.ends_with(' ') {
+        c.pop();
+        if rng.chance(1, 2) {
+            c.push_str(pick(rng, FAILING));
+        }
+    }
+    c
+}
+
+fn chunk_spaced(rng: &mut Rng, vocab: &[String], depth: u32) -> String {
     let prim = |rng: &mut Rng| format!("\\{}", vocab[rng.below(vocab.len() as u64) as usize]);
     if depth == 0 {
         return match rng.below(3) {
@@ -239,6 +256,31 @@ pub fn traces(args: &Args) -> i32 {
         }
         programs.push(full);
     }
+    // deterministic family: every arithmetic primitive on every register type with both operands at the
+    // boundaries (-2^31 is reached through \advance's wrap-around; constants cannot express it)
+    let setup = |reg: &str, v: &str| -> String {
+        match (reg, v) {
+            ("count", "MIN") => "\\count1=-2147483647 \\advance\\count1 by -1 ".to_string(),
+            ("dimen", "MIN") => "\\dimen1=-16383.99998pt \\advance\\dimen1 by \\dimen1 \\advance\\dimen1 by -2sp ".to_string(),
+            ("skip", "MIN") => "\\skip1=-16383.99998pt plus -16383.99998fil \\advance\\skip1 by \\skip1 \\advance\\skip1 by -2sp ".to_string(),
+            ("count", v) => format!("\\count1={v} "),
+            ("dimen", v) => format!("\\dimen1={v}sp "),
+            (_, v) => format!("\\skip1={v}sp plus {v}sp minus {v}sp "),
+        }
+    };
+    let bvals = ["MIN", "-2147483647", "-1073741824", "-1073741823", "-65536", "-2", "-1", "0", "1", "2", "65536", "1073741823", "1073741824", "2147483647"];
+    let rvals = ["-2147483647", "-1073741824", "-65536", "-2", "-1", "0", "1", "2", "3", "65536", "1073741823", "1073741824", "2147483647", "\\count1", "-\\count1", "\\dimen1", "-\\dimen1"];
+    let nfam_before = programs.len();
+    for reg in ["count", "dimen", "skip"] {
+        for op in ["advance", "multiply", "divide"] {
+            for l in bvals {
+                for r in rvals {
+                    programs.push(format!("{}\\{op}\\{reg}1 by {r} [\\the\\{reg}1]", setup(reg, l)));
+                }
+            }
+        }
+    }
+    let _nfam = programs.len() - nfam_before;
     let nthreads = std::thread::available_parallelism().map(|n| n.get()).unwrap_or(4);
     let next = std::sync::atomic::AtomicUsize::new(0);
     let results: std::sync::Mutex<Vec<(usize, Vec<Value>)>> = std::sync::Mutex::new(vec![]);
